@@ -143,7 +143,8 @@ VARIANT_PAIRS = [
 
 NEG_PAIRS = [("http://lemonde.fr/x", "https://lemonde.fr/x"), ("http://www.lemonde.fr/x", "http://lemonde.fr/x"), ("http://lemonde.fr/x#a", "http://lemonde.fr/x#b"),
              ("http://lemonde.fr/X", "http://lemonde.fr/x"), ("http://lemonde.fr/x?b=1&a=2", "http://lemonde.fr/x?a=2&b=1"), ("http://fr.lemonde.fr/x", "http://lemonde.fr/x"),
-             ("http://lemonde.fr/x?utm_source=1", "http://lemonde.fr/x"), ("http://lemonde.fr:8080/x", "http://lemonde.fr/x"), ("http://lemonde.fr/x", "http://lemonde.co.uk/x"), ("http://lemonde.fr/x", "http://lemonde.fr/../x/y"), ("http://lemonde.fr/x", "http://lemonde.fr/../y/x")]
+             ("http://lemonde.fr/x?utm_source=1", "http://lemonde.fr/x"), ("http://lemonde.fr:8080/x", "http://lemonde.fr/x"), ("http://lemonde.fr/x", "http://lemonde.co.uk/x"), ("http://lemonde.fr/x", "http://lemonde.fr/../x/y"), ("http://lemonde.fr/x", "http://lemonde.fr/../y/x"),
+             ("http://uk", "http://co.uk/p"), ("http://github.io", "http://a.github.io/x"), ("http://co.uk", "http://bbc.co.uk/x"), ("http://a.co.uk.fr/", "http://a.co.uk/")]
 
 
 def indep_key(fn, u, sa, kwargs):
